@@ -196,6 +196,9 @@ func (g *G) localize(f *FlowSpec, loc J, item, prop string, vals []string, mk fu
 
 func (g *G) newResultName() string {
 	n := resultNamePool[g.T.Pick("resname", len(resultNamePool))]
+	if g.forceResultName != "" {
+		n = g.forceResultName
+	}
 	g.resultNames = append(g.resultNames, n)
 	return n
 }
@@ -349,7 +352,8 @@ var testPool = []testSpec{
 		n := 1 + g.T.Pick("ncats", 2)
 		out := []string{}
 		for i := 0; i < n; i++ {
-			out = append(out, catNames[g.T.Pick("hascat", len(catNames))])
+			pool := append(append([]string{}, catNames...), "Success", "Failure", "Bucket 1", "Complete")
+			out = append(out, pool[g.T.Pick("hascat", len(pool))])
 		}
 		return out
 	}},
@@ -389,8 +393,33 @@ func (g *G) genSwitch(f *FlowSpec, nd *nodeDraft, loc J, subflow bool) {
 	}
 	webhookOperand := strings.HasPrefix(operand, "@webhook")
 	r["operand"] = operand
+	// routers that split on an earlier result: on its category, or on the intents a classifier found
+	only := map[string]bool{}
+	if !subflow {
+		switch t.Weighted("result_split", 16, 1, 1) {
+		case 1:
+			if len(g.resultNames) > 0 {
+				operand = "@results." + snake(g.resultNames[t.Pick("split_result", len(g.resultNames))])
+				r["operand"] = operand
+				only = map[string]bool{"has_category": true}
+			}
+		case 2:
+			if len(g.S.Classifs) > 0 && f.Type != "messaging_background" {
+				// the classifier is called in this very node and saved as "Intent"
+				g.forceKind, g.forceResultName = "call_classifier", "Intent"
+				if a := g.genAction(f, nd, loc); a != nil {
+					nd.actions = append(nd.actions, a)
+				}
+				g.forceKind, g.forceResultName = "", ""
+				operand = "@results.intent"
+				r["operand"] = operand
+				only = map[string]bool{"has_intent": true, "has_top_intent": true, "has_category": true}
+			}
+		}
+		webhookOperand = strings.HasPrefix(operand, "@webhook")
+	}
 	// "where do you live?": a router whose cases are all location tests, under various parents
-	survey := g.S.Locs && !subflow && t.Chance("location_survey", 1, 10)
+	survey := g.S.Locs && !subflow && len(only) == 0 && t.Chance("location_survey", 1, 10)
 	if survey {
 		operand, webhookOperand = "@input.text", false
 		r["operand"] = operand
@@ -416,6 +445,15 @@ func (g *G) genSwitch(f *FlowSpec, nd *nodeDraft, loc J, subflow bool) {
 					if tsp.name == "has_state" || tsp.name == "has_district" || tsp.name == "has_ward" {
 						wts[wi] = 4
 					} else if survey {
+						wts[wi] = 0
+					}
+				}
+			}
+			if len(only) > 0 {
+				for wi, tsp := range testPool {
+					if only[tsp.name] {
+						wts[wi] = 4
+					} else {
 						wts[wi] = 0
 					}
 				}
